@@ -93,6 +93,9 @@ impl Check for C05Check {
     }
 
     fn generate(&self, seed: u64, index: u64, tier: Tier) -> Case {
+        if let Some(c) = crate::surface::case_for("C05", seed, index) {
+            return c;
+        }
         let mut st = streams(seed, "C05", index);
         let mut o = Opts::finite_small();
         o.for_loops = false;
@@ -165,6 +168,9 @@ impl Check for C05Check {
     }
 
     fn valid(&self, case: &Case) -> bool {
+        if crate::surface::is_surface(case) {
+            return crate::surface::valid(case);
+        }
         if !valid::program_ok(&case.program) || forbidden(&case.program) {
             return false;
         }
@@ -197,7 +203,7 @@ impl Check for C05Check {
     }
 
     fn rule(&self) -> String {
-        "case = (terminating program inside dfs{}: DFSConj/DFSDisj/cond, fresh, closures, member/append, program-defined \
+        "Every 64th case is one of the macro-written surface programs for this property (sim/src/surface.rs: static-fail clauses, comma-separated dfs block goals, nested cond, match arms, project in dfs) compared as an exact sequence with a hand-listed expectation. case = (terminating program inside dfs{}: DFSConj/DFSDisj/cond, fresh, closures, member/append, program-defined \
          recursive relations, DFS leaves with several answers; optionally the block is one branch of an interleaving conde \
          with a producing sibling) x (leaf latency and delivery shape, yields, reorders). Oracle in-block: the sequence of \
          states reaching an observer goal placed last inside the block equals the reference interpreter's depth-first \
@@ -208,6 +214,9 @@ impl Check for C05Check {
     }
 
     fn run(&self, case: &Case) -> CaseResult {
+        if crate::surface::is_surface(case) {
+            return crate::surface::run_case(case);
+        }
         let mut facts = Facts::default();
         fault_facts(&case.program, &mut facts);
         let p = &case.program;
